@@ -362,10 +362,10 @@ theorem every_request_method_routes :
       "self.get_real_rootfs" ∈ f.2.2.2.2.2 := by
   decide +kernel
 
-/-- the methods the model treats as "validated" are exactly those whose first statement in the
-    source is `validate_path_component(..)?` -/
+/-- the methods the model treats as "validated" (`ReqOp.validates`) are exactly those that call
+    `validate_path_component` in the source -/
 theorem validated_methods_match_source :
-    (Fbr.Gen.vfsSyncFns.filter (fun f => f.2.2.2.1.startsWith "validate_path_component")).map (·.2.2.1)
+    (Fbr.Gen.vfsSyncFns.filter (fun f => (f.2.2.2.2.1.map (·.1)).contains "validate_path_component")).map (·.2.2.1)
       = ["symlink", "mknod", "mkdir", "unlink", "rmdir", "rename", "link", "create", "setxattr", "getxattr", "removexattr"] := by
   decide +kernel
 
